@@ -22,7 +22,7 @@ func init() {
 			"C06.4 the expiry closure of the allocation timer calls m.DeleteAllocation(alloc.fiveTuple) for the allocation that owns the timer; " +
 			"C06.5 DeleteAllocation deletes the map entry and, on the found path, calls Close, whose release coverage is C15.2; " +
 			"C06.5r (=C15.2) Close releases every timer, socket and collection element of the allocation; C06.7 (=C15.7) a failed create leaves no armed timer behind (the expiry deletes by 5-tuple and would hit a later allocation), and the allocation is published before its created-callback runs; C06.8 a relay loop whose socket read fails ends its allocation at once — it never reads again, so a removed allocation's loop cannot end a later allocation of the same 5-tuple; " +
-			"C06.6 the only sources of the duration arming an allocation timer are ServerConfig.AllocationLifetime, the 10-minute default that replaces a zero value, and the decoded request LIFETIME. C06.9 (=C04.10) who may end an allocation; C06.10 (=C15.11) the lifetime timer is Reset by Refresh alone. C06.11 (=C18.cb) lifecycle callbacks run outside Manager.lock.",
+			"C06.6 the only sources of the duration arming an allocation timer are ServerConfig.AllocationLifetime, the 10-minute default that replaces a zero value, and the decoded request LIFETIME. C06.9 (=C04.10) who may end an allocation; C06.10 (=C15.11) the lifetime timer is Reset by Refresh alone. C06.11 (=C18.cb) lifecycle callbacks run outside Manager.lock. C06.12 in the Refresh handler Allocation.Refresh / Manager.DeleteAllocation is passed on every path to the success response (the effect does not hang on the write); C06.9 now admits only the Refresh handler among the request handlers.",
 		NotCovered: "wall-clock exactness ('exactly', 'no longer'), behaviour of time.Timer, races between expiry and refresh.",
 		Run:        runC06,
 	})
@@ -282,6 +282,7 @@ func runC06(c *Ctx) {
 	ruleRelayLoopGivesUpAtOnce(c, "C06.8")
 	ruleWhoMayDeleteAllocation(c, "C06.9")
 	ruleLifetimeTimerResetByRefresh(c, "C06.10")
+	ruleRefreshEffectBeforeResponse(c, "C06.12", c.W.authedHandlers(nil, "C06.12"))
 	ruleCallbacksOutsideManagerLock(c, "C06.11")
 
 	// ---- C06.6
